@@ -1,12 +1,13 @@
 """C08 - channel weights stay a probability vector; disabled channels and floor respected.
 Spec: Refine.tla (RefineW as coded, WeightsOK property level), MC_Refine (TLC), Trace_C08."""
 import vt
+import mpicommon
 
 LEVEL = "model_checking"
 BUILDS = [(("drv_c08", ["drv_c08.cpp"]), {})]
 
 
-def run(chk, replay=None):
+def run_main(chk, replay=None):
     thorough = chk.tier == "thorough"
     chk.cov["checker_cmd"] = "tlc MC_Refine; tlc Trace_C08 (TRACE=out/C08/trace.ndjson)"
     chk.cov["trusted_base"] = ["TLC", "pow(x, 1/k) exact for perfect k-th powers times powers of two (libm)",
@@ -45,6 +46,15 @@ def run(chk, replay=None):
         if r2.rc == 0:
             raise vt.MachineryError("binding self-test: corrupted trace accepted")
         chk.cov["binding_selftest"] = "weight sum corrupted at event %d: rejected (matched %s)" % (i + 1, r2.matched)
+
+
+def run(chk, replay=None):
+    if mpicommon.is_mpi_replay(replay):
+        mpicommon.mpi_leg(chk, "C08:mpi", replay=replay)
+        return
+    run_main(chk, replay=replay)
+    if not replay and not chk.violations:
+        mpicommon.legs(chk, "C08:mpi", big=False)
 
 
 def replay(chk, path):
